@@ -167,6 +167,30 @@ def run(rep):
                  "random trees (1-3 document streams) with $output true/false/non-boolean markers on any subset of maps (key) and "
                  "lists (marker entry, some with extra keys), nested to any depth; judged by the model and by an independently "
                  "written Python selection/hiding function; non-trivial = carries a marker", oracle=oracle, extra_gens=[small_scope(PID)])
+    if len(rep.violations) < 5:
+        import random
+        import fscheck
+        fscheck.file_chain_stage(rep, empty_output_cases(random.Random(rep.seed + 13), 120 if rep.tier == "quick" else 3000),
+                                 "empty marked subtrees in the output stream")
+
+
+def empty_output_cases(rng, n):
+    """marked subtrees that are EMPTY maps (or become empty once their marker is removed) at the front, in the middle and at the end of
+    the output stream, written in every output format: each marked subtree is one output document, also when a format writes an empty
+    document as no text at all"""
+    out = []
+    for _ in range(n):
+        doc, order = {}, rng.sample(["a", "b", "c", "d"], rng.randint(2, 4))
+        for k in order:
+            r = rng.random()
+            doc[k] = {"$output": True} if r < 0.45 else {"$output": True, "x": rng.choice([1, "s"])} if r < 0.8 else {"y": 1}
+        if rng.random() < 0.3:
+            doc = {"w": doc, "$output": rng.choice([True, False])}
+        ext = rng.choice(["json", "yaml", "toml"])
+        out.append({"layout": {"a." + ext: {"fmt": ext, "docs": [doc]}},
+                    "opts": {"inputs": ["a." + ext], "format": rng.choice(["toml", "toml", "yaml", "json", "json-pretty"])},
+                    "meta": {"kind": "empty-outputs"}})
+    return out
 
 
 def replay(rep, payload):
